@@ -70,7 +70,7 @@ class FakeAtomGrid:
         return out
 
 
-def job_atom(ctx: Ctx, kind, lmax_full, origin_in_grid):
+def job_atom(ctx: Ctx, kind, lmax_full, origin_in_grid, options=False):
     po, rp, ut, co = install()
     e = ctx.engine
     sym.Engine.cur = e
@@ -82,6 +82,8 @@ def job_atom(ctx: Ctx, kind, lmax_full, origin_in_grid):
     for i in range(3):
         if not (origin_in_grid and i == 0):
             e.assume(r[i] > (r[i - 1] if i and not (origin_in_grid and i == 1) else lo), r[i] < K(10 ** 5))
+    if options:     # explicit boundary value, no origin added, points beyond remove_large_pts dropped: r0 < r1 < 50 < r2
+        e.assume(r[1] < 50, r[2] > 50)
     ag = FakeAtomGrid("A", lmax_full, arr(r), e)
     e.assume(ag.rq > lo)
     fv = arr([real(f"f{k}") for k in range(4)])
@@ -116,7 +118,9 @@ def job_atom(ctx: Ctx, kind, lmax_full, origin_in_grid):
 
     def body():
         del captured[:]
-        if kind == "bvp":
+        if kind == "bvp" and options:
+            fn = po._solve_poisson_bvp_atomgrid(ag, fv, tf, boundary=2.5, include_origin=False, remove_large_pts=50.0, ode_params=params)
+        elif kind == "bvp":
             fn = po._solve_poisson_bvp_atomgrid(ag, fv, tf, ode_params=params)
         else:
             fn = po._solve_poisson_ivp_atomgrid(ag, fv, tf, r_interval=(rmax, rmin), ode_params=params)
@@ -152,16 +156,16 @@ def job_atom(ctx: Ctx, kind, lmax_full, origin_in_grid):
                 ctx.eq(f"(l,m)=({l},{m}): leading coefficient 1", c2, K(1), q.pc, replay=replay, key=key)
             if kind == "bvp":
                 cond = cap["cond"]
-                want_far = Q / Y00 if (l, m) == (0, 0) else K(0)
+                want_far = (K(Fraction(5, 2)) if options else Q / Y00) if (l, m) == (0, 0) else K(0)
                 ok_shape = len(cond) == 2 and cond[0][:2] == (0, 0) and cond[1][:2] == (1, 0)
                 (ctx.ok if ok_shape else ctx.fail)(f"(l,m)=({l},{m}): conditions on u at both ends", detail=str(cond), key=key, replay=replay)
                 if ok_shape:
                     ctx.eq(f"(l,m)=({l},{m}): u(0) == 0", cond[0][2], K(0), p.pc, replay=replay, key=key)
                     ctx.eq(f"(l,m)=({l},{m}): u(inf) == total charge / Y_00 * delta_l0", cond[1][2], want_far, p.pc, replay=replay, key=key)
                 x = cap["x"]
-                want_x = ([K(0)] if not origin_in_grid else []) + list(r)
+                want_x = ([K(0)] if not origin_in_grid else []) + list(r) if not options else list(r[:2])
                 (ctx.ok if len(x) == len(want_x) and all(node_of(a_) is node_of(b_) for a_, b_ in zip(x, want_x)) else ctx.fail)(
-                    f"(l,m)=({l},{m}): mesh is the radial grid with the origin included once", detail=str(list(x)), key=key, replay=replay)
+                    f"(l,m)=({l},{m}): mesh is the radial grid with the origin included once" if not options else f"(l,m)=({l},{m}): include_origin=False, remove_large_pts=50: mesh is exactly the radial points <= 50", detail=str(list(x)), key=key, replay=replay)
                 (ctx.ok if cap["kw"].get("no_derivatives") is True and cap["kw"].get("tol") == 1e-5 and cap["kw"].get("max_nodes") == 50000 else ctx.fail)("defaults merged with the caller's options", detail=str(cap["kw"]), key=key, replay=replay)
             else:
                 y0 = cap["cond"]
@@ -458,7 +462,7 @@ def job_ground_accuracy(ctx: Ctx, what):
 
 
 def jobs(tier):
-    js = [Job("atom/bvp/l<=1", job_atom, "bvp", 3, False), Job("atom/bvp/origin-in-grid", job_atom, "bvp", 2, True), Job("atom/ivp/l<=1", job_atom, "ivp", 3, False),
+    js = [Job("atom/bvp/l<=1", job_atom, "bvp", 3, False), Job("atom/bvp/origin-in-grid", job_atom, "bvp", 2, True), Job("atom/bvp/options", job_atom, "bvp", 3, False, True), Job("atom/ivp/l<=1", job_atom, "ivp", 3, False),
           Job("molecular", job_molecular), Job("laplacian", job_laplacian), Job("robust/2", job_robust, 2)]
     js += [Job("ground/robust-core", job_ground_accuracy, "robust-core"), Job("ground/atom", job_ground_accuracy, "atom"), Job("ground/robust-split2", job_ground_accuracy, "robust-split2")]
     if tier == "thorough":
